@@ -393,6 +393,19 @@ def mk_not(a):
     return ("not", a)
 
 
+def _never_none(t):
+    """Arithmetic, displays, results of jax array functions and array-style subscripts x[:, :, 0] are never None."""
+    if t[0] in ("add", "mul", "pow", "tuple", "list", "at", "fold"):
+        return t[0] != "fold"
+    if t[0] == "call" and t[1][0] == "ext" and t[1][1].startswith(("jax.numpy.", "jax.nn.", "jax.lax.", "jax.scipy.")):
+        return True
+    if t[0] == "sub" and t[2][0] == "tuple" and any(x[0] == "slice" or x == NONE for x in t[2][1]):
+        return True
+    if t[0] == "ite":
+        return _never_none(t[2]) and _never_none(t[3])
+    return False
+
+
 def mk_cmp(op, a, b):
     if is_const(a) and is_const(b):
         try:
@@ -405,6 +418,11 @@ def mk_cmp(op, a, b):
                 return C(bool(r))
         except Exception:
             pass
+    # `t is None` for a term that is certainly an array / a number / a display: decided
+    if op in ("is", "is not") and (a == NONE or b == NONE):
+        t_ = b if a == NONE else a
+        if _never_none(t_):
+            return C(op == "is not")
     # (k1 if c else k2) == k  with constants: decided by c
     if op in ("==", "!="):
         for x, y in ((a, b), (b, a)):
